@@ -44,7 +44,7 @@ Definition ex_passes :=
   [mksp 1 0 [Del 0; Del 1; Del 2] 0 None; mksp 2 0 [Dup 0; DelCh 99%N; Stop_] 1 (Some [97;97]%N); mksp 1 0 [Del 0; Del 1; Del 2] 0 None].
 Example C01_example :
   let '(m, e, acc) := reduce nat (run_rules ex_rules) ex_rc [] (map sp_pass ex_passes) []
-                       (mkm [[99;97;99]%N; [98;98;99]%N] [] (xinit 0 0) [1;0;1;1;0;1]) in
+                       (mkm [[99;97;99]%N; [98;98;99]%N] [] (xinit 0 0) [1;0;1;1;0;1] None) in
   e = FNormal /\ 2 <= length acc /\ interesting (run_rules ex_rules) (m_disk m) = true.
 Proof. vm_compute. repeat split; auto; lia. Qed.
 Example C01_example_hyp : Forall (new_sane nat) (map sp_pass ex_passes).
